@@ -223,6 +223,9 @@ def run_jobs(jobs, trace_out=None, timeout=900, tag="jobs", may_abort=False):
     for k, r in enumerate(results):
         if r is None:
             results[k] = [{"abort": True, "rc": "lost"}]
+    for fn in os.listdir(d):                      # job files can be large (every restart rewrites the remainder)
+        if fn.startswith("jobs-") and fn.endswith(".ndjson"):
+            os.remove(os.path.join(d, fn))
     return results
 
 
@@ -557,4 +560,6 @@ def traced(jobs, check, tag, timeout=900, chunk_limit=250000):
         check.drift.append({"piece": pp, "line": ln, "event": sl[off] if off < len(sl) else None,
                             "job": head.get("job"), "step": head.get("step"),
                             "prev": sl[max(0, off - 3):off]})
+    if not check.drift and not os.environ.get("VERIF_KEEP_WORK"):
+        shutil.rmtree(d, ignore_errors=True)       # traces and chunk tables are only needed while TLC validates them
     return out
